@@ -63,10 +63,11 @@ type model struct {
 	handl  map[string][]string // "c<conn><ns>" -> events the handlers of that socket saw
 	disc   map[string][]string // disconnect reasons per socket
 	conns  map[string]int      // connection handler runs per socket
+	left   map[string]string   // socket key -> how it last left its namespace ("D" client, "SD" server kick, "CK" kicked by its connection handler)
 }
 
 func newModel() *model {
-	m := &model{handl: map[string][]string{}, disc: map[string][]string{}, conns: map[string]int{}}
+	m := &model{handl: map[string][]string{}, disc: map[string][]string{}, conns: map[string]int{}, left: map[string]string{}}
 	for i := range m.alive {
 		m.alive[i] = true
 		m.joined[i] = map[string]bool{}
@@ -97,6 +98,14 @@ func (m *model) key() string {
 		sort.Strings(j)
 		parts = append(parts, fmt.Sprintf("%v%v", m.alive[c], j))
 	}
+	// how a socket left is part of the state: the implementation's routing tables may differ afterwards
+	// although the model's do not (a rejoin after each way of leaving is explored)
+	var l []string
+	for k, how := range m.left {
+		l = append(l, k+"="+how)
+	}
+	sort.Strings(l)
+	parts = append(parts, strings.Join(l, ","))
 	return strings.Join(parts, "|")
 }
 
@@ -116,8 +125,30 @@ func (m *model) apply(o op) {
 			return
 		}
 		m.joined[c][o.ns] = true
+		delete(m.left, sk(c, o.ns))
 		m.frames[c] = append(m.frames[c], "0"+pfx(o.ns)+"{sid}")
 		m.conns[sk(c, o.ns)]++
+	case "CK":
+		// CONNECT whose connection handler at once kicks the socket out of the namespace
+		if !m.alive[c] {
+			return
+		}
+		if m.joined[c][o.ns] {
+			m.kill(c, "forced")
+			return
+		}
+		m.frames[c] = append(m.frames[c], "0"+pfx(o.ns)+"{sid}", "1"+pfx(o.ns))
+		m.conns[sk(c, o.ns)]++
+		m.disc[sk(c, o.ns)] = append(m.disc[sk(c, o.ns)], "server namespace disconnect")
+		m.left[sk(c, o.ns)] = "CK"
+	case "SD":
+		// the server application kicks the socket out of the namespace (ServerSocket.Disconnect(false))
+		if m.alive[c] && m.joined[c][o.ns] {
+			delete(m.joined[c], o.ns)
+			m.frames[c] = append(m.frames[c], "1"+pfx(o.ns))
+			m.disc[sk(c, o.ns)] = append(m.disc[sk(c, o.ns)], "server namespace disconnect")
+			m.left[sk(c, o.ns)] = "SD"
+		}
 	case "E", "EA":
 		if !m.alive[c] {
 			return
@@ -142,6 +173,7 @@ func (m *model) apply(o op) {
 		}
 		delete(m.joined[c], o.ns)
 		m.disc[sk(c, o.ns)] = append(m.disc[sk(c, o.ns)], "client namespace disconnect")
+		m.left[sk(c, o.ns)] = "D"
 	case "NE":
 		for i := 0; i < nconn; i++ {
 			if m.alive[i] && m.joined[i][o.ns] {
@@ -170,6 +202,9 @@ func alphabet() []op {
 		}
 		for _, ns := range nss {
 			ops = append(ops, op{kind: "E", conn: c, ns: ns}, op{kind: "EA", conn: c, ns: ns}, op{kind: "D", conn: c, ns: ns}, op{kind: "SE", conn: c, ns: ns})
+			if ns == "/a" || ns == "/ab" || ns == "/" {
+				ops = append(ops, op{kind: "CK", conn: c, ns: ns}, op{kind: "SD", conn: c, ns: ns})
+			}
 		}
 		ops = append(ops, op{kind: "XA", conn: c, ns: "/a", ns2: "/ab"}, op{kind: "XA", conn: c, ns: "/ab", ns2: "/a"}, op{kind: "XA", conn: c, ns: "/", ns2: "/a/b"})
 	}
@@ -215,6 +250,7 @@ type real struct {
 	conns  map[string]int
 	socks  map[string]sio.ServerSocket
 	connOf map[string]int // socket id -> connection index
+	kick   map[sio.ServerSocket]bool
 }
 
 // replay runs a history on a fresh server and returns the first discrepancy with the model.
@@ -230,7 +266,15 @@ func replay(hist []op) (fail, kind string, steps int) {
 				if strings.Contains(string(h.Auth), `"c":1`) {
 					c = 1
 				}
-				w.v.Do(func() { w.socks[sk(c, ns)] = s })
+				w.v.Do(func() {
+					w.socks[sk(c, ns)] = s
+					if strings.Contains(string(h.Auth), `"kick":true`) {
+						if w.kick == nil {
+							w.kick = map[sio.ServerSocket]bool{}
+						}
+						w.kick[s] = true
+					}
+				})
 				return nil
 			})
 			nsp.OnConnection(func(s sio.ServerSocket) {
@@ -249,6 +293,11 @@ func replay(hist []op) (fail, kind string, steps int) {
 					ack("ok:" + ns)
 				})
 				s.OnDisconnect(func(r sio.Reason) { w.v.Do(func() { w.disc[k] = append(w.disc[k], string(r)) }) })
+				kick := false
+				w.v.Do(func() { kick = w.kick[s] })
+				if kick {
+					s.Disconnect(false)
+				}
 			})
 		}
 		for c := 0; c < nconn; c++ {
@@ -259,12 +308,20 @@ func replay(hist []op) (fail, kind string, steps int) {
 			m.apply(o)
 			f := w.fs[o.conn]
 			kind0 := o.kind
-			if f.Closed > 0 && (kind0 == "C" || kind0 == "E" || kind0 == "EA" || kind0 == "D") {
+			if f.Closed > 0 && (kind0 == "C" || kind0 == "CK" || kind0 == "E" || kind0 == "EA" || kind0 == "D") {
 				kind0 = "-" // a closed connection delivers nothing any more
 			}
 			switch kind0 {
 			case "C":
 				f.In("0" + pfx(o.ns) + fmt.Sprintf(`{"c":%d}`, o.conn))
+			case "CK":
+				f.In("0" + pfx(o.ns) + fmt.Sprintf(`{"c":%d,"kick":true}`, o.conn))
+			case "SD":
+				var s sio.ServerSocket
+				w.v.Do(func() { s = w.socks[sk(o.conn, o.ns)] })
+				if s != nil && s.Connected() {
+					s.Disconnect(false)
+				}
 			case "E":
 				f.In("2" + pfx(o.ns) + `["ev"]`)
 			case "EA":
@@ -645,6 +702,110 @@ func secondNamespace(name string, emitAtOnce bool, bound int) *vx.Scenario {
 	return sc
 }
 
+// ---------------------------------------------------------------- 5. leaving a namespace around its connection handler, then rejoining
+//
+// A socket may leave its namespace while the server is still busy admitting it: the connection handler
+// kicks it (ServerSocket.Disconnect(false)), another goroutine kicks every socket of the namespace, or the
+// client sends DISCONNECT while a slow connection handler runs. Afterwards the connection must route
+// exactly as if the namespace had never been joined: the other namespace keeps working, a new CONNECT
+// for the namespace is admitted as a new socket, and the connection stays open.
+func leaveAroundHandler(name, how string, bound int) *vx.Scenario {
+	sc := &vx.Scenario{Name: name, Bound: bound, Horizon: 30 * time.Second}
+	sc.Body = func(e *vsched.Exec) func() vx.Result {
+		srv := sio.NewServer(nil)
+		var v vsched.Var
+		got := map[string][]string{}
+		nconnK := 0
+		disc := []string{}
+		for _, ns := range []string{"/a", "/k"} {
+			ns := ns
+			// event handlers are registered in the middleware: the asynchronous connection handler is not
+			// what this scenario is about
+			srv.Of(ns).Use(func(s sio.ServerSocket, h *sio.Handshake) any {
+				id := string(s.ID())
+				s.OnEvent("ev", func(tag string) { v.Do(func() { got[ns] = append(got[ns], tag+"@"+id) }) })
+				s.OnDisconnect(func(r sio.Reason) { v.Do(func() { disc = append(disc, ns+":"+string(r)) }) })
+				return nil
+			})
+		}
+		srv.Of("/a").OnConnection(func(s sio.ServerSocket) {})
+		srv.Of("/k").OnConnection(func(s sio.ServerSocket) {
+			n := 0
+			v.Do(func() { nconnK++; n = nconnK })
+			if n != 1 {
+				return
+			}
+			switch how {
+			case "handler-kicks":
+				s.Disconnect(false)
+			case "slow-handler-client-leaves":
+				vsched.Sleep(2 * time.Second)
+			}
+		})
+		f := vrig.NewFakeEIO(srv, "k0")
+		f.In("0/a,")
+		vrig.Settle(100 * time.Millisecond)
+		f.In("0/k,")
+		switch how {
+		case "broadcast-kick-races-admission":
+			// no settling: DisconnectSockets races the tail of the CONNECT processing
+			srv.Of("/k").DisconnectSockets(false)
+		case "slow-handler-client-leaves":
+			vrig.Settle(time.Second)
+			f.In("1/k,")
+		}
+		vrig.Settle(5 * time.Second)
+		first := len(srv.Of("/k").Sockets())
+		f.In("0/k,")
+		vrig.Settle(time.Second)
+		f.In(`2/k,["ev","k"]`)
+		f.In(`2/a,["ev","a"]`)
+		vrig.Settle(time.Second)
+		return func() vx.Result {
+			var r vx.Result
+			replies := 0
+			var sids []string
+			for _, t := range f.Texts() {
+				if strings.HasPrefix(t, "0/k,") {
+					replies++
+					sids = append(sids, t)
+				}
+			}
+			kicked := first == 0
+			r.Outcome = fmt.Sprintf("closed=%d replies=%d kicked=%v got=%v k-sockets=%d", f.Closed, replies, kicked, got, len(srv.Of("/k").Sockets()))
+			ctx := fmt.Sprintf("%s: frames to the client %v; handlers saw %v; disconnects %v; /k lists %d sockets after the first round and %d at the end; connection closed %d times", how, f.Texts(), got, disc, first, len(srv.Of("/k").Sockets()), f.Closed)
+			if !kicked {
+				// (only possible for the racing broadcast kick: it ran before the socket was listed) the second
+				// CONNECT is then a duplicate and closes the connection, as the routing model demands
+				if how != "broadcast-kick-races-admission" {
+					r.Violate("leave around the connection handler: the socket is still listed after it left", "%s", ctx)
+				}
+				return r
+			}
+			if f.Closed > 0 {
+				r.Violate("leave around the connection handler: rejoining the namespace closed the connection", "%s", ctx)
+				return r
+			}
+			if replies != 2 || (len(sids) == 2 && sids[0] == sids[1]) {
+				r.Violate("leave around the connection handler: the new CONNECT was not admitted as a new socket", "%s", ctx)
+			}
+			if len(got["/a"]) != 1 {
+				r.Violate("leave around the connection handler: the other namespace stopped working", "%s", ctx)
+			}
+			if len(got["/k"]) != 1 {
+				r.Violate("leave around the connection handler: event for the rejoined namespace lost or dispatched to the socket that left", "%s", ctx)
+			} else if len(sids) == 2 && !strings.Contains(sids[1], strings.SplitN(got["/k"][0], "@", 2)[1]) {
+				r.Violate("leave around the connection handler: event for the rejoined namespace lost or dispatched to the socket that left", "%s", ctx)
+			}
+			if n := len(srv.Of("/k").Sockets()); n != 1 {
+				r.Violate("leave around the connection handler: namespace socket list wrong after the rejoin", "%s", ctx)
+			}
+			return r
+		}
+	}
+	return sc
+}
+
 func scenarios(tier string) []*vx.Scenario {
 	b := 1
 	if tier == "thorough" {
@@ -661,6 +822,11 @@ func scenarios(tier string) []*vx.Scenario {
 		}
 	}
 	s = append(s, secondNamespace("second-namespace/connect-then-use-later", false, b+1), secondNamespace("second-namespace/connect-and-emit-at-once", true, b+1))
+	for _, how := range []string{"handler-kicks", "broadcast-kick-races-admission", "slow-handler-client-leaves"} {
+		sc := leaveAroundHandler("leave-around-connection-handler/"+how, how, b+2)
+		sc.Shards = 8
+		s = append(s, sc)
+	}
 	return s
 }
 
@@ -668,8 +834,8 @@ func main() {
 	vx.Main(vx.Config{
 		Property: "C05",
 		Level:    "model_checking",
-		Rule: "server: explicit-state BFS (canonical state = joined namespaces per connection) over histories of CONNECT / EVENT / EVENT+ack / DISCONNECT / nsp.Emit / socket.Emit / cross-namespace ack race on 2 connections x {'/', '/a', '/ab', '/a/b', a non-existent one}, every history replayed on the real server and compared with a routing model after every step; " +
-			"concurrent connections in look-alike namespaces explored to the bound; Go client: all 6 orders of CONNECT replies x early/late event placements against a raw Engine.IO endpoint; second namespace on an open connection. distinct_nontrivial = histories of length >= 2 + deviating schedules",
+		Rule: "server: explicit-state BFS (canonical state = joined namespaces per connection + how each socket that left did so, so that a rejoin after every way of leaving is explored) over histories of CONNECT / CONNECT-whose-connection-handler-kicks / EVENT / EVENT+ack / DISCONNECT / server-side kick / nsp.Emit / socket.Emit / cross-namespace ack race on 2 connections x {'/', '/a', '/ab', '/a/b', a non-existent one}, every history replayed on the real server and compared with a routing model after every step; " +
+			"concurrent connections in look-alike namespaces explored to the bound; Go client: all 6 orders of CONNECT replies x early/late event placements against a raw Engine.IO endpoint; second namespace on an open connection; a socket leaving its namespace around its connection handler (kicked by the handler, kicked by a racing DisconnectSockets, client DISCONNECT during a slow handler) followed by a rejoin, explored to the bound. distinct_nontrivial = histories of length >= 2 + deviating schedules",
 		Scenarios: scenarios,
 		Budget: func(tier string) time.Duration {
 			if tier == "thorough" {
